@@ -136,7 +136,9 @@ def gen_op(rng, mode, n_objects):
             return ["strptime_s", n, rng.randrange(max(1, n_objects))]
         if kind == "dto_s":
             # the count read by a long-lived operator with --parse-format=%s
-            return ["dto_s", abs(n), rng.random() < 0.5]
+            # (four conversions per operation: kept below 1e11 s, a
+            # conversion of 2e12 s costs most of a second)
+            return ["dto_s", abs(n) % 10 ** 11, rng.random() < 0.5]
         return ["props_from_epoch", n]
     if kind == "epoch_of":
         return ["epoch_of", gen_point_spec(rng, mode)]
@@ -972,6 +974,8 @@ def safe_str(p):
 
 def execute(trace):
     kernel.import_library()
+    if trace.get("alarm"):
+        kernel.CALL_ALARM_S = trace["alarm"]
     sim = Sim(trace).run()
     return {"results": sim.results, "violations": sim.violations,
             "counters": sim.counters, "sig": sim.sig,
@@ -996,7 +1000,8 @@ def gen_hostzone(rng, index):
             steps.append({"k": "pert", "act": ["tzset", 0]})
             steps.append({"k": "pert", "act": ["dst", 0]})
     trace.update(kind="hostzone", zones=zones, cur=0, isdst=0,
-                 host_tz=kernel.posix_tz(west), steps=steps)
+                 host_tz=kernel.posix_tz(
+                     west, ["XST", "UTC", "GMT"][index % 3]), steps=steps)
     return trace
 
 
@@ -1004,7 +1009,13 @@ def check_trace_full(trace):
     if trace.get("host_tz"):
         res = kernel.run_in_host_zone(PROP, trace)
     else:
-        res = kernel.in_fresh_fork(execute, (trace,))
+        res = kernel.in_fresh_fork(
+            execute, (trace,), timeout=1500 if trace.get("alarm") else 300)
+    if any(v.get("class") == "hang" for v in res["violations"]) and (
+            not trace.get("alarm")):
+        # the per-call alarm is the one place real time enters: a call that
+        # timed out is decided again with a six-fold alarm before it counts
+        return check_trace_full(dict(trace, alarm=6 * kernel.CALL_ALARM_S))
     counters = dict(res["counters"])
     counters["simulated_time_covered_s"] = (
         res["sim_time_us"] // 10 ** 6 + res["n_span"])
